@@ -126,8 +126,7 @@ Lemma fresh_cache_ok (a : agent T) : (forall h, In h (a_hps a) -> hp_cache h = N
 Proof. intros H h c Hh Hc. rewrite (H h Hh) in Hc. discriminate. Qed.
 
 (* ---------------- one mutation, unfolded ---------------- *)
-Definition base_of (a : agent T) (h : hpent T) : option T :=
-  match hp_cache h with Some c => Some c | None => getv (a_vals a) (hp_name h) end.
+Definition base_of (a : agent T) (h : hpent T) : option T := getv (a_vals a) (hp_name h).
 
 Definition mutated (a : agent T) (k : nat) (u : T) (h : hpent T) (v : T) : agent T :=
   let nv := mutate_value O (hp_par h) u v in
@@ -148,8 +147,7 @@ Qed.
 Lemma base_is_own (a : agent T) h v :
   CacheOk a -> In h (a_hps a) -> getv (a_vals a) (hp_name h) = Some v -> base_of a h = Some v.
 Proof.
-  intros C Hh Hv. unfold base_of. destruct (hp_cache h) as [c|] eqn:E; [|exact Hv].
-  rewrite (C h c Hh E) in Hv. exact Hv.
+  intros C Hh Hv. exact Hv.
 Qed.
 
 (* the three ways rl_hyperparam_mutation can go *)
@@ -167,8 +165,34 @@ Proof.
     + right. destruct W as (W1 & _ & _).
       assert (In h (a_hps a)) as Hin by (eapply nth_error_In; eauto).
       destruct (W1 h Hin) as [v Hv]. exists h, v. rewrite <- E. repeat split; auto.
-      apply rl_hp_unfold; auto. apply base_is_own; auto.
+      apply rl_hp_unfold; auto.
     + left. rewrite <- E. split; [exact Hk|]. unfold rl_hp_mutation. rewrite E. rewrite E in Hk. rewrite Hk. reflexivity.
+Qed.
+
+(* the earlier code (cache first) and the repaired code (own attribute) are the same function on every state
+   in which the cache agrees with the attributes — i.e. on every reachable state of a population whose members own
+   their configuration; they differ exactly when the cache is stale *)
+Lemma cache_first_agrees (a : agent T) k u :
+  CacheOk a -> rl_hp_mutation_cache_first O a k u = rl_hp_mutation O a k u.
+Proof.
+  intros C. unfold rl_hp_mutation_cache_first, rl_hp_mutation.
+  destruct (a_hps a) as [|h0 t] eqn:E; [reflexivity|].
+  destruct (nth_error (h0 :: t) k) as [h|] eqn:Hk; [|reflexivity].
+  destruct (hp_cache h) as [c|] eqn:Hc; [|reflexivity].
+  assert (In h (a_hps a)) as Hin by (rewrite E; eapply nth_error_In; eauto).
+  rewrite (C h c Hin Hc). reflexivity.
+Qed.
+
+(* whatever the cache holds (stale, aliased, copied from another agent): the new value is the mutation of the
+   individual's own attribute *)
+Lemma hp_mutation_from_attribute (a : agent T) k u h v :
+  nth_error (a_hps a) k = Some h -> getv (a_vals a) (hp_name h) = Some v ->
+  getv (a_vals (rl_hp_mutation O a k u)) (hp_name h) = Some (mutate_value O (hp_par h) u v) /\
+  (forall m, m <> hp_name h -> getv (a_vals (rl_hp_mutation O a k u)) m = getv (a_vals a) m).
+Proof.
+  intros Hk Hv. rewrite (rl_hp_unfold a k u h v Hk Hv). unfold mutated. cbn [a_vals]. split.
+  - apply getv_setv_same.
+  - intros m Hm. apply getv_setv_other; exact Hm.
 Qed.
 
 (* ---------------- optimizers ---------------- *)
@@ -572,6 +596,36 @@ Proof.
   - vm_compute. reflexivity.
   - vm_compute. discriminate.
 Qed.
+
+(* (3) one RLParam(eter) object configured as lr_actor (name 0) AND lr_critic (name 1) under the earlier
+   cache-first code: lr_critic 1/100 is shrunk to 1/200, then lr_actor (own value 1/10000) is "grown" to 1/100 *)
+Definition lr_par : param Q := {| p_min := 1 # 10000; p_max := 1 # 100; p_shrink := 1 # 2; p_grow := 2; p_int := false |}.
+Definition aliased_agent : agent Q :=
+  {| a_vals := [(0%nat, 1 # 10000); (1%nat, 1 # 100)];
+     a_hps := [ {| hp_name := 0%nat; hp_par := lr_par; hp_cache := None |};
+                {| hp_name := 1%nat; hp_par := lr_par; hp_cache := None |} ];
+     a_opts := []; a_mut := None |}.
+
+Lemma aliased_parameter_refuted_lemma :
+  let a1 := aliased_mutation QOps aliased_agent 0 1 1 (1 # 4) in
+  let a2 := aliased_mutation QOps a1 0 1 0 (3 # 4) in
+  exists own got, getv (a_vals a1) 0%nat = Some own /\ getv (a_vals a2) 0%nat = Some got /\
+                  ~ got == mutate_value QOps lr_par (3 # 4) own.
+Proof.
+  cbn zeta. eexists. eexists. split; [|split].
+  - vm_compute. reflexivity.
+  - vm_compute. reflexivity.
+  - vm_compute. discriminate.
+Qed.
+
+(* the repaired code on the same two steps: lr_actor is mutated from its own value *)
+Lemma own_attribute_on_aliased_agent :
+  let a1 := rl_hp_mutation QOps aliased_agent 1 (1 # 4) in
+  let a1' := with_hps a1 (alias_cache (a_hps a1) 1 0) in
+  match getv (a_vals (rl_hp_mutation QOps a1' 0 (3 # 4))) 0%nat with
+  | Some got => Qeq_bool got (mutate_value QOps lr_par (3 # 4) (1 # 10000))
+  | None => false end = true.
+Proof. vm_compute. reflexivity. Qed.
 
 (* with per-individual copies (the current code) individual 1 starts from its own value *)
 Lemma own_copies_on_two_agents :
